@@ -62,6 +62,8 @@ def run(ctx):
     ctx.rule("R16.c", "declare_numeric_bounds emits exactly minimum|exclusiveMinimum -> low and maximum|exclusiveMaximum -> high chosen by inclusive_bounds[0]/[1]; "
                       "the emitted keywords accept a value class iff the Number validator's specification does (exhaustive)", floor=3)
     ctx.rule("R16.d", "param_schema wraps with JSONNullable iff p.allow_None; JSONNullable is anyOf[schema, {'type': 'null'}]; tuple_schema pins minItems = maxItems = length", floor=3)
+    ctx.rule("R16.e", "schema and serialized state are computed from the same Parameter objects: the entry points hand the same object (instance or class) to the serializer, "
+                      "and JSONSerialization.schema / serialize_parameters iterate the same pobj.param.objects(...) view", floor=2)
     ctx.not_decided += ["that arbitrary serialized values validate against the schema (needs a validator run)", "Selector enum contents (run-time objects)"]
     cls = ctx.repo.cls(SER)
     methods = {m for m in cls.methods if m.endswith("_schema")}
@@ -217,3 +219,37 @@ def run(ctx):
     ctx.abstract_cases += 2
     (ctx.ok if ok else ctx.fail)("R16.d", ts, ts.node, "tuple_schema: type array, minItems = maxItems = length when a length is declared" if ok else
                                  "tuple_schema does not pin minItems and maxItems to the declared length")
+
+    # ---------------------------------------------------------------- R16.e
+    PZ = "param.parameterized.Parameters"
+    handed = {}
+    for m, callee in (("schema", "schema"), ("serialize_parameters", "serialize_parameters"), ("serialize_value", "serialize_parameter_value")):
+        f = ctx.repo.method(PZ, m)
+        calls = [c for c in ast.walk(f.node) if isinstance(c, ast.Call) and isinstance(c.func, ast.Attribute) and c.func.attr == callee and c.args]
+        ctx.require(calls, "Parameters.%s no longer calls serializer.%s" % (m, callee))
+        a0 = calls[0].args[0]
+        if isinstance(a0, ast.Name):
+            defs = [st.value for st in ast.walk(f.node) if isinstance(st, ast.Assign) and any(isinstance(t, ast.Name) and t.id == a0.id for t in st.targets)]
+            txt = norm(defs[0]) if len(defs) == 1 else "?"
+        else:
+            txt = norm(a0)
+        handed[m] = (txt, f, calls[0])
+    ref = handed["serialize_parameters"][0]
+    for m, (txt, f, c) in handed.items():
+        if txt == ref == "self_.self_or_cls":
+            ctx.ok("R16.e", f, c, "Parameters.%s hands self_.self_or_cls to the serializer" % m)
+        else:
+            ctx.fail("R16.e", f, c, "Parameters.%s hands `%s` to the serializer while serialize_parameters hands `%s`: the schema of an instance is built from different Parameter objects "
+                                    "(class-level constraints) than its serialized state" % (m, txt, ref), key="%s::different-object" % f.qualname,
+                     input="obj.param.i.bounds = (0, 100); obj.i = 50; obj.param.schema() still says maximum 10")
+    views = {}
+    for m in ("schema", "serialize_parameters"):
+        f = cls.method(m)
+        loops = [st for st in ast.walk(f.node) if isinstance(st, ast.For)]
+        views[m] = norm(loops[0].iter) if loops else "?"
+    f = cls.method("schema")
+    if views["schema"] == views["serialize_parameters"] and "param.objects(" in views["schema"]:
+        ctx.ok("R16.e", f, f.node, "both iterate %s" % views["schema"])
+    else:
+        ctx.fail("R16.e", f, f.node, "JSONSerialization.schema iterates `%s` but serialize_parameters iterates `%s`" % (views["schema"], views["serialize_parameters"]),
+                 key=SER + "::different-view")
